@@ -1,4 +1,4 @@
 SPECIFICATION TSpec
-CONSTANTS HS = 12  TempCap = 8192
+CONSTANTS HS = 12  TempCap = 8192  BugPadding = FALSE
 POSTCONDITION TraceAccepted
 CHECK_DEADLOCK FALSE
